@@ -21,7 +21,7 @@ pub struct Case {
     pub cparam: u16,
     pub second: Option<(u8, u8)>, // a second mint: (difficulty offset, amount class); odd amount class: in the same batch
     #[serde(default)]
-    pub lead: u8, // empty blocks before the coin is created
+    pub lead: u8, // empty blocks before the coin is created; bits 6-7: starting DOSC speed class (fabricated through from_block)
 }
 
 struct Legacy;
@@ -208,10 +208,27 @@ pub fn check_case(c: &Case, st: &mut Stats, shard: usize) -> Check {
         stakes: vec![],
     };
     let mut w = World::new(g, shard);
-    for _ in 0..(1 + c.lead % 6) {
+    for _ in 0..(1 + (c.lead & 0x3f) % 6) {
         if !matches!(w.seal(None), O::Ok(_)) {
             return Ok(());
         }
+    }
+    // a lower starting DOSC speed (state re-based through the public from_block) makes rewards large and lets an
+    // ordinary mint raise the recorded speed, so that the speed at a coin's creation and at its mint differ
+    let start_speed: Option<u128> = match c.lead >> 6 {
+        1 => Some(10),
+        2 => Some(5_000),
+        _ => None,
+    };
+    if let (Some(sp), Some(s)) = (start_speed, w.last_sealed.clone()) {
+        let mut blk = s.to_block();
+        blk.header.dosc_speed = sp;
+        let r = crate::world::Sealed::from_block(&blk, &s.raw_stakes(), &w.db);
+        let hd = r.header();
+        w.headers.insert(hd.height.0, hd);
+        w.cur = r.next_unsealed();
+        w.last_sealed = Some(r);
+        st.class("low-starting-dosc-speed");
     }
     // funding: three small coins to mint against + fee coins, created at height 1
     let mut fund = Transaction::new(TxKind::Normal);
@@ -338,7 +355,7 @@ pub fn run(ctx: &Ctx) -> (Outcome, String, Option<bool>) {
         },
     );
     out.absorb(o);
-    let rule = "Generated: a coin created at height 1-6 on Custom02 / Mainnet / Testnet and aged 1, 2, 3, 7, 30, 98, 99, 100, 101 or 140 blocks; a genuine MelPoW proof generated for the puzzle hash_keyed(header(creation height).hash(), stdcode(coin id)) under the legacy hash (difficulty 1-14 quick, to 17 thorough) or the TIP-910 hash (1-11 quick, 12 thorough); ERG output at the independently recomputed bound floor(reward x inflator) / +1 / -1 / 0 / half / double; then one of: no corruption (4/12), a flipped label bit, a dropped node, difficulty claimed +-1, proof for another coin, for another height's header, undecodable data or proof bytes, the fee coin listed first; optionally a second mint one block later at a neighbouring difficulty; plus a phase with four TIP-910 mints (difficulty 13-14, one 1-2 lower, 8 and 9) in ONE batch with the fastest first in either half, on a single-threaded pool. Oracle (RefSTF's mint rules with the harness's own copies of both hash functions): accepted => proof verifies for that puzzle and difficulty, ERG <= bound, age >= 100 on mainnet; a genuine proof at or below the bound is accepted; after sealing, header DOSC speed = max(previous, demonstrated speed) and never decreases. Non-trivial = every mint carrying a generated proof; distinct by (difficulty, variant, age, amount class, corruption, network).".to_string();
+    let rule = "Generated: a coin created at height 1-6 on Custom02 / Mainnet / Testnet and aged 1, 2, 3, 7, 30, 98, 99, 100, 101 or 140 blocks; a genuine MelPoW proof generated for the puzzle hash_keyed(header(creation height).hash(), stdcode(coin id)) under the legacy hash (difficulty 1-14 quick, to 17 thorough) or the TIP-910 hash (1-11 quick, 12 thorough); ERG output at the independently recomputed bound floor(reward x inflator) / +1 / -1 / 0 / half / double; then one of: no corruption (4/12), a flipped label bit, a dropped node, difficulty claimed +-1, proof for another coin, for another height's header, undecodable data or proof bytes, the fee coin listed first; optionally a second mint one block later at a neighbouring difficulty; a quarter of the cases each start from a state re-based to DOSC speed 10 or 5000 (so that rewards are non-zero and the first mint raises the speed seen by the second); plus a phase with four TIP-910 mints (difficulty 13-14, one 1-2 lower, 8 and 9) in ONE batch with the fastest first in either half, on a single-threaded pool. Oracle (RefSTF's mint rules with the harness's own copies of both hash functions): accepted => proof verifies for that puzzle and difficulty, ERG <= bound, age >= 100 on mainnet; a genuine proof at or below the bound is accepted; after sealing, header DOSC speed = max(previous, demonstrated speed) and never decreases. Non-trivial = every mint carrying a generated proof; distinct by (difficulty, variant, age, amount class, corruption, network).".to_string();
     (out, rule, None)
 }
 
